@@ -123,6 +123,23 @@ def point_sets(draw, length, nmin=2, nmax=30, two_lists=True, n2max=30, families
             d2 = math.asin(sd2)
             r2 = b[0] + math.degrees(math.atan2(math.sin(brg) * math.sin(s_) * math.cos(d1), math.cos(s_) - math.sin(d1) * sd2))
             p2.append((_wrap(r2), sgn * _clipdec(math.degrees(d2))))
+    elif fam == 'pole-exact':
+        # one or two points exactly on a pole (dec = +-90, any RA) and the rest on small circles around it whose radius is a
+        # stated multiple of the length; separations from the pole are exactly those radii
+        sgn = draw(st.sampled_from([1, -1]))
+
+        def cap(n, k_on_pole):
+            pts = []
+            for k in range(n):
+                ra = _wrap(180.0 * (1 + draw(unitf)))
+                if k < k_on_pole:
+                    pts.append((ra, sgn * 90.0))
+                else:
+                    f = draw(st.sampled_from([0.5, 0.9, 0.99, 1.01, 1.5, 0.3, 3.0, 7.0]))
+                    pts.append((ra, sgn * max(0.0, 90.0 - f * L)))
+            return pts
+        p1 = list(draw(st.permutations(cap(n1, draw(st.sampled_from([1, 1, 2]))))))
+        p2 = cap(n2, draw(st.sampled_from([0, 1]))) if two_lists else []
     else:  # chain: consecutive separations 0.7-1.1 L along a direction, shuffled
         c = (draw(st.sampled_from([0.0, 359.9, 100.0, 200.0])) + draw(unitf), 75 * draw(unitf))
         ang = draw(st.sampled_from([0.0, math.pi / 2, math.pi / 4, 2.0]))
